@@ -70,5 +70,23 @@ CHECKS = [
              'include all shapes 2..5 per direction.',
      'note': 'Trusted: vf/refop.py (cross-checked against discretize), '
              'scipy.constants, numpy/scipy. Grids beyond 5 cells sampled.'},
+    {'id': 'C14', 'ref': 'DESIGN.md section 3 C14',
+     'technique': 'runtime monitoring at the client boundary with reference '
+                  'models: own six property maps + complex-step derivative '
+                  '(Map* calls), closed-form eta/zeta from widths and sigma '
+                  '(VolumeModel), enumerated validation contract (Model '
+                  'constructor/setters), independent FIT residual + sextuple '
+                  'agreement (emg3d.solve, Simulation data and gradient)',
+     'text': 'For thousands of conductivity models over twelve decades '
+             'expressed in all six mappings the solver coefficients equal '
+             'those computed independently from sigma (1e-13), every Map* '
+             'call matches an independent model, every invalid value of a '
+             'complete enumeration is rejected at construction and on '
+             'assignment, and for sextuples of real solves fields, data and '
+             'chain-ruled gradients agree across mappings.',
+     'note': 'Trusted: reference maps in vf/c14.py (guarded by central '
+             'differences), vf/refop.py, scipy.constants. The 100*tol '
+             'agreement bound for fields/data/gradients is calibrated; '
+             'automatic gridding and extract_1d are not exercised here.'},
 ]
 NOT_APPLICABLE = []
